@@ -140,7 +140,7 @@ def mul2_and_horner(ctx, rep):
             p = symbolic_poly(I, st)
             where = '%s:%s' % ((f.file or '').replace('/repo/', ''), f.line)
             try:
-                outs = I.run(f, [p], st)
+                outs = I.run(f, P.by_type(f, poly=p), st)
             except Unmodelled as e_:
                 # control flow that depends on coefficient values: probe with two symbolic coefficients at a time (all others zero) against the reference form
                 if _horner_probe(P, f, rep, where, L): continue
@@ -188,9 +188,9 @@ def mul2_and_horner(ctx, rep):
                  'evaluation of the other 15 coefficients into coeff[0] (so the stored value makes the form vanish) and writes nothing else')
         for f in P.fns('gf_poly_check'):
             I = Interp(P); st = State(); p = symbolic_poly(I, st)
-            outs = I.run(f, [p], st)
+            outs = I.run(f, P.by_type(f, poly=p), st)
             I2 = Interp(P, I.V); st2 = State(); p2 = symbolic_poly(I2, st2)
-            ev = I2.run(P.fns('gf_poly_eval')[0], [p2], st2)[0].ret
+            ev = I2.run(P.fns('gf_poly_eval')[0], P.by_type(P.fns('gf_poly_eval')[0], poly=p2), st2)[0].ret
             ok = False
             if len(outs) == 1:
                 r = outs[0].ret
@@ -202,12 +202,12 @@ def mul2_and_horner(ctx, rep):
         for f in P.fns('gf_poly_encode'):
             I = Interp(P); st = State(); p = symbolic_poly(I, st, first=1)
             before = [list(c) for c in st.mem.objs['poly']]
-            outs = I.run(f, [p], st)
+            outs = I.run(f, P.by_type(f, poly=p), st)
             ok = len(outs) == 1
             if ok:
                 m = outs[0].state.mem.objs['poly']
                 I2 = Interp(P, I.V); st2 = State(); p2 = symbolic_poly(I2, st2, first=1)
-                ev = I2.run(P.fns('gf_poly_eval')[0], [p2], st2)[0].ret
+                ev = I2.run(P.fns('gf_poly_eval')[0], P.by_type(P.fns('gf_poly_eval')[0], poly=p2), st2)[0].ret
                 got = get(outs[0].state, 'poly', 0, 8)
                 ok = got.bits == ev.bits and all(m[k] == before[k] for k in range(8, 128))
             rep.check(ok, 'gf_poly_encode stores eval(coeff[1..15]) into coeff[0] only', '%s:%s' % ((f.file or '').replace('/repo/', ''), f.line),
@@ -248,7 +248,7 @@ def packing(ctx, rep, want=('layout', 'inverse')):
         for k in range(19, 32): put(st, 'seed', so + k, I.V.bv('secret[%d]' % k, 8))
         st.mem.new('poly', 128, 0)
         put(st, 'poly', 0, I.V.bv('poly0', 64))
-        outs = I.run(f, [seed, Ptr('poly', 0)], st)
+        outs = I.run(f, P.by_type(f, seed=seed, poly=Ptr('poly', 0)), st)
         if 'layout' in want:
             rep.rule('PACK-LAYOUT', 'polyseed_data_to_poly on a symbolic seed: coefficient i (1..15) bit 10-b = secret bit 10(i-1)+b '
                      '(MSB-first from secret[0], low 6 bits of the 19th byte), bit 0 = bit 14-(i-1) of (features<<10|birthday); bits >= 11 '
@@ -283,7 +283,7 @@ def packing(ctx, rep, want=('layout', 'inverse')):
             p = symbolic_poly(I2, st2)
             size = P.structs[DATA_STRUCT]['size']
             st2.mem.new('out', size, U)
-            outs2 = I2.run(g, [p, Ptr('out', 0)], st2)
+            outs2 = I2.run(g, P.by_type(g, poly=p, seed=Ptr('out', 0)), st2)
             if len(outs2) != 1:
                 rep.fail('unpacker is straight-line on symbolic data', wg, g.name, key='PACK-INV|paths'); return
             o2 = outs2[0]
@@ -346,7 +346,7 @@ def storage(ctx, rep):
         I = Interp(P); st = State()
         seed, fo = symbolic_seed(I, st, canonical=True)
         st.mem.new('storage', 32, U)
-        outs = I.run(fs, [seed, Ptr('storage', 0)], st)
+        outs = I.run(fs, P.by_type(fs, seed=seed, storage=Ptr('storage', 0)), st)
         img = None
         if len(outs) != 1:
             rep.fail('store is straight-line', ws, fs.name)
@@ -378,7 +378,7 @@ def storage(ctx, rep):
         for k in range(32): put(st, 'storage', k, I.V.bv('in[%d]' % k, 8))
         size = P.structs[DATA_STRUCT]['size']
         st.mem.new('seed', size, U)
-        outs = I.run(fl, [Ptr('storage', 0), Ptr('seed', 0)], st)
+        outs = I.run(fl, P.by_type(fl, storage=Ptr('storage', 0), seed=Ptr('seed', 0)), st)
         oks = []; nform = 0
         for o in outs:
             rv = o.ret.concrete() if isinstance(o.ret, BV) else None
@@ -404,7 +404,7 @@ def storage(ctx, rep):
             I2 = Interp(P, I.V)
             st2 = o.state
             st2.mem.new('again', 32, U)
-            outs2 = I2.run(fs, [Ptr('seed', 0), Ptr('again', 0)], st2)
+            outs2 = I2.run(fs, P.by_type(fs, seed=Ptr('seed', 0), storage=Ptr('again', 0)), st2)
             if len(outs2) != 1:
                 rep.fail('store straight-line on loaded seed', ws, fs.name)
             else:
@@ -447,12 +447,12 @@ def storage_total(ctx, rep):
         I = Interp(P); st = State()
         seed, fo = symbolic_seed(I, st, canonical=True)
         st.mem.new('img', 32, U)
-        o1 = I.run(fs, [seed, Ptr('img', 0)], st)
+        o1 = I.run(fs, P.by_type(fs, seed=seed, storage=Ptr('img', 0)), st)
         if len(o1) != 1:
             rep.fail('store straight-line', wl, fs.name); continue
         st2 = o1[0].state
         st2.mem.new('seed2', P.structs[DATA_STRUCT]['size'], U)
-        outs = I.run(fl, [Ptr('img', 0), Ptr('seed2', 0)], st2)
+        outs = I.run(fl, P.by_type(fl, storage=Ptr('img', 0), seed=Ptr('seed2', 0)), st2)
         rets = sorted(set(str(o.ret.concrete()) for o in outs))
         rep.check(len(outs) == 1 and outs[0].ret.concrete() == status['POLYSEED_OK'], 'load(store(seed)) has the OK exit only', wl, 'polyseed_data_load on stored images',
                   detail={'exits': rets, 'rejecting_guards': [o.state.cons.opaque[-1:] for o in outs if o.ret.concrete() != status['POLYSEED_OK']][:3]},
